@@ -67,9 +67,6 @@ def post_intersect(ctx, call):
         ctx.skip("intersect", "numerically zero matrix (the section plane of an internal 3D reduction lies in the quadric)")
         return
     dim = self.shape[-1] - 1
-    if dim == 3 and np.iscomplexobj(other.array) and np.any(np.abs(other.array.imag) > 1e-12):
-        ctx.skip("intersect", "complex line in 3D (outside the domain)")
-        return
     try:
         cshape = np.broadcast_shapes(S.coll_shape(self), S.coll_shape(other))
     except ValueError:
@@ -463,6 +460,14 @@ def g_generic(ctx, rng, i):
             pole = np.linalg.solve(A.astype(float), np.asarray(pl.array, dtype=float))
             ctx.judge("polar", X.proj_residual(pole, pt.array) <= 1e-8, [A, pt.array], what="pole(polar(p)) != p", op="pole∘polar", nontrivial=True)
     _try(lambda: Q.dual)
+    # complex lines (through two points with Gaussian integer coordinates), in the plane and in space
+    if i % 3 == 1:
+        for _ in range(3):
+            cp_, cq_ = (gen.coords(rng, (n,), 3, "int") + 1j * gen.coords(rng, (n,), 3, "int") for _ in range(2))
+            if np.linalg.matrix_rank(np.stack([cp_, cq_])) == 2:
+                lcx = _try(mk, cp_, cq_)
+                if lcx is not None:
+                    _try(Q.intersect, lcx)
     # the quadric moved after its dual / tangency was asked for: the same questions on the image
     tm = gen.invertible_int_matrix(rng, n, 2)
     t = g.Transformation(tm)
